@@ -61,5 +61,61 @@ Proof.
   cbn [negb orb] in H. right. apply existsb_exists in H as (x & Hx & E). apply String.eqb_eq in E. subst. auto.
 Qed.
 
+(* ---- read-locked regions --------------------------------------------------- *)
+(* pool.mu.RLock admits several holders at once, so a region that holds only
+   the read lock must not write shared pool state - neither directly nor through
+   anything it calls (lazy caches such as txSortedMap.Flatten's m.cache, heap
+   and sort operations included).  Calls are resolved by name over the three
+   pool files (an over-approximation); types with their own mutex (txLookup,
+   txNoncer) synchronise their writes themselves and count as non-writing. *)
+Definition fentry := (string * bool * list string)%type.
+Fixpoint find_func (t : list fentry) (n : string) : option (bool * list string) :=
+  match t with
+  | [] => None
+  | (m, w, cs) :: r => if String.eqb m n then Some (w, cs) else find_func r n
+  end.
+(* depth-first over the call names; a name already on the path adds nothing
+   (recursion by name, e.g. txList.Len -> txSortedMap.Len) *)
+Fixpoint may_write_from (fuel : nat) (t : list fentry) (seen : list string) (n : string) : bool :=
+  match fuel with
+  | O => true
+  | S f => if existsb (String.eqb n) seen then false
+           else match find_func t n with
+                | Some (w, cs) => w || existsb (may_write_from f t (n :: seen)) cs
+                | None => false        (* not defined in the pool files *)
+                end
+  end.
+Definition may_write (fuel : nat) (t : list fentry) (n : string) : bool := may_write_from (S fuel) t [] n.
+
+(* (region, callee) pairs tolerated although the name analysis flags them: none *)
+Definition pinned_read_exceptions : list (string * string) := [].
+
+Definition read_regions_ok (t : list fentry) (rs : list fentry) : bool :=
+  forallb (fun r => let '(name, w, cs) := r in
+             negb w &&
+             forallb (fun c => negb (may_write (List.length t) t c)
+                               || existsb (fun e => String.eqb (fst e) name && String.eqb (snd e) c) pinned_read_exceptions) cs) rs.
+
+Lemma read_regions_do_not_write : read_regions_ok c20_funcs c20_read_regions = true.
+Proof. vm_compute. reflexivity. Qed.
+
+Lemma read_regions_forall :
+  forall name w cs, In (name, w, cs) c20_read_regions ->
+    w = false /\ forall c, In c cs -> may_write (List.length c20_funcs) c20_funcs c = false \/ In (name, c) pinned_read_exceptions.
+Proof.
+  intros name w cs Hin. pose proof read_regions_do_not_write as H. unfold read_regions_ok in H.
+  rewrite forallb_forall in H. specialize (H _ Hin). cbn beta iota in H.
+  apply andb_prop in H as [H1 H2]. split; [destruct w; auto; discriminate|].
+  intros c Hc. rewrite forallb_forall in H2. specialize (H2 c Hc).
+  match type of H2 with context [may_write ?a ?b ?x] => destruct (may_write a b x) eqn:M end; auto.
+  cbn [negb orb] in H2. right. apply existsb_exists in H2 as ([n' c'] & Hx & E). apply andb_prop in E as [E1 E2].
+  apply String.eqb_eq in E1. apply String.eqb_eq in E2. cbn in E1, E2. subst. auto.
+Qed.
+
+(* the analysis is not vacuous: it does see the lazy cache of Flatten and the
+   write-locked users of it *)
+Lemma flatten_is_seen_as_a_write : may_write (List.length c20_funcs) c20_funcs "Flatten" = true.
+Proof. vm_compute. reflexivity. Qed.
+
 Lemma evict_branch_as_modelled : c20_evict_branch_as_modelled = true.
 Proof. reflexivity. Qed.
